@@ -379,6 +379,10 @@ def aggregate(raw, tried):
 def run(ctx):
     thorough = not ctx.quick
     P.prepare()
+    bad, _ = P.assembly_preflight(passes=2)
+    if bad:
+        # not this property's subject (C06 / C18 report it), and a faulty assembly may grow without bound
+        raise RuntimeError("protocol layer sets differ from the model, no verdict possible: %r" % (bad[0][:3],))
     names = [k.name for k in KINDS]
     nchunks = 2
     items = []
